@@ -374,3 +374,69 @@ Lemma unknown_address_rejected tls s ca :
   step tls s (RemoveIx ca true) = err s /\ step tls s (CloseIx ca) = err s /\
   step tls s (ShutdownIx ca) = err s.
 Proof. intro L. cbn [step]. rewrite L. auto. Qed.
+
+(* ------------------------------------------------------------------ every accepted peer gets an entry *)
+
+Lemma has_entry_aset ca k v l : ca = k \/ has_entry ca l -> has_entry ca (aset k v l).
+Proof.
+  unfold has_entry. intros [H|H].
+  - subst. rewrite lookup_aset_same. discriminate.
+  - destruct (Z.eq_dec ca k) as [E|E]; [subst; rewrite lookup_aset_same; discriminate|].
+    rewrite lookup_aset_other; assumption.
+Qed.
+
+Lemma fold_accept_plain_entries : forall cas s ca,
+  In ca cas \/ has_entry ca (ixes s) -> has_entry ca (ixes (fold_left accept_plain cas s)).
+Proof.
+  induction cas as [|c cas IH]; intros s ca H; cbn [fold_left].
+  - destruct H as [[]|H]. exact H.
+  - apply IH. destruct H as [[H|H]|H]; [right|left; exact H|right].
+    + subst. cbn [accept_plain ixes]. apply has_entry_aset. left. reflexivity.
+    + cbn [accept_plain ixes]. apply has_entry_aset. right. exact H.
+Qed.
+
+Lemma fold_accept_tls_entries : forall cas s ca,
+  In ca cas \/ has_entry ca (cxes s) -> has_entry ca (cxes (fold_left accept_tls cas s)).
+Proof.
+  induction cas as [|c cas IH]; intros s ca H; cbn [fold_left].
+  - destruct H as [[]|H]. exact H.
+  - apply IH. destruct H as [[H|H]|H]; [right|left; exact H|right].
+    + subst. cbn [accept_tls cxes]. apply has_entry_aset. left. reflexivity.
+    + cbn [accept_tls cxes]. apply has_entry_aset. right. exact H.
+Qed.
+
+(* serviceCxes only moves entries from the pending to the ready table *)
+Lemma service_cxes_keeps_entries : forall snap hs s ca,
+  has_entry ca (ixes s) \/ has_entry ca (cxes s) ->
+  (forall k v, In (k, v) snap -> lookup k (cxes s) = Some v) -> NoDup (keys snap) ->
+  has_entry ca (ixes (service_cxes snap hs s)) \/ has_entry ca (cxes (service_cxes snap hs s)).
+Proof.
+  induction snap as [|[k v] snap IH]; intros hs s ca H Hl Hd; cbn [service_cxes]; [exact H|].
+  inversion Hd as [|? ? Hn Hd']; subst.
+  destruct hs as [|[|] hs]; [exact H| |].
+  - apply IH; [| |exact Hd'].
+    + cbn [promote ixes cxes]. destruct (Z.eq_dec ca k) as [E|E].
+      * left. apply has_entry_aset. left. exact E.
+      * destruct H as [H|H]; [left; apply has_entry_aset; right; exact H|].
+        right. unfold has_entry. rewrite lookup_aremove_other; assumption.
+    + intros k' v' Hin. cbn [promote cxes]. rewrite lookup_aremove_other.
+      * apply Hl. right. exact Hin.
+      * intro; subst. apply Hn. change k with (fst (k, v')). apply in_map. exact Hin.
+  - apply IH; [exact H| |exact Hd']. intros k' v' Hin. apply Hl. right. exact Hin.
+Qed.
+
+Lemma accepted_have_entries tls s cas hs ca :
+  table_ok s -> In ca cas ->
+  let s' := step tls s (ServiceConnects cas hs) in
+  has_entry ca (ixes s') \/ (tls = true /\ has_entry ca (cxes s')).
+Proof.
+  intros Hs Hin. cbn [step]. destruct tls.
+  - assert (H1 : table_ok (fold_left accept_tls cas s)) by (apply ok_fold_accept; [apply ok_accept_tls|exact Hs]).
+    destruct (service_cxes_keeps_entries (cxes (fold_left accept_tls cas s)) hs (fold_left accept_tls cas s) ca) as [H|H].
+    + right. apply fold_accept_tls_entries. left. exact Hin.
+    + intros k v Hi. apply lookup_of_in; [apply (ok_cxes_functional _ H1)|exact Hi].
+    + apply (ok_cxes_functional _ H1).
+    + left. exact H.
+    + right. split; [reflexivity|exact H].
+  - left. apply fold_accept_plain_entries. left. exact Hin.
+Qed.
